@@ -527,7 +527,7 @@ PROPS = {
     ),
     "C12": dict(
         module="Hb.Props.C12",
-        ties=[("scen", "alloc-reserve", 12, 300), ("scen", "reserve", 200, 6000), ("t1", {})],
+        ties=[("scen", "alloc-reserve", 12, 300), ("scen", "reserve", 200, 6000), ("t1", {}), ("custom", extras_oracle)],
         backends=["sse2", "portable"],
         design="§7 C12",
         text="Lean theorem try_reserve_contract for every table state (API invariant), amount, allocator oracle and hasher: "
